@@ -811,7 +811,11 @@ func (w *WalletManager) GetAllAddressesWithPubkey() ([]*txmgr.AddressDetail, err
 		}
 	}
 
-	for _, ma := range w.ksmgr.CurrentKeystore().ManagedAddresses() {
+	am := w.ksmgr.CurrentKeystore()
+	if am == nil {
+		return nil, ErrNoWalletInUse
+	}
+	for _, ma := range am.ManagedAddresses() {
 		if addr, ok := m0[ma.String()]; ok {
 			addr.PubKey = ma.PubKey()
 			continue
@@ -1265,8 +1269,8 @@ func (w *WalletManager) ChainIndexerSyncedHeight() uint64 {
 }
 
 func (w *WalletManager) CurrentWallet() string {
-	if w.ksmgr.CurrentKeystore() != nil {
-		return w.ksmgr.CurrentKeystore().Name()
+	if am := w.ksmgr.CurrentKeystore(); am != nil {
+		return am.Name()
 	}
 	return ""
 }
